@@ -86,11 +86,16 @@ def _qr(ctx, p, rng, full=False):
     a = _series(rng, D, P, M, N, lambda: gen.well_conditioned(rng, M, N))
     cond = max(lin.cond2(a[0, pp]) for pp in range(P))
     mech = '%s:%s' % (name, cls)
+    K = M if full else min(M, N)
+    use_out = rng.random() < 0.3          # preallocated, previously used output buffers (a loop re-using its outputs)
+    kw = {'out': (UTPM(rng.normal(size=(D, P, M, K))), UTPM(rng.normal(size=(D, P, K, N))))} if use_out else {}
+    if use_out:
+        mech += ':reused-out'
     try:
-        Qm, R = (algopy.qr_full if full else algopy.qr)(UTPM(gen.relayout(a, gen.LAYOUTS[int(rng.integers(5))])))
+        Qm, R = (UTPM.qr_full if full else UTPM.qr)(UTPM(gen.relayout(a, gen.LAYOUTS[int(rng.integers(5))])), **kw) if use_out else \
+            (algopy.qr_full if full else algopy.qr)(UTPM(gen.relayout(a, gen.LAYOUTS[int(rng.integers(5))])))
     except Exception as e:
         ctx.violation(mech + ':raises:' + type(e).__name__, {'M': M, 'N': N, 'D': D, 'P': P, 'error': repr(e)[:200]}); return
-    K = M if full else min(M, N)
     if Qm.data.shape != (D, P, M, K) or R.data.shape != (D, P, K, N):
         ctx.violation(mech + ':shape', {'Q': Qm.data.shape, 'R': R.data.shape, 'M': M, 'N': N}); return
     q, r = Qm.data, R.data
@@ -117,8 +122,10 @@ def _cholesky(ctx, p, rng):
     a = _series(rng, D, P, n, n, lambda: gen.spd(rng, n), scale=0.4)
     a = 0.5 * (a + lin.T(a))
     cond = max(lin.cond2(a[0, pp]) for pp in range(P))
+    use_out = rng.random() < 0.3
     try:
-        L = algopy.cholesky(UTPM(gen.relayout(a, gen.LAYOUTS[int(rng.integers(5))])))
+        L = UTPM.cholesky(UTPM(gen.relayout(a, gen.LAYOUTS[int(rng.integers(5))])), out=UTPM(rng.normal(size=a.shape))) if use_out else \
+            algopy.cholesky(UTPM(gen.relayout(a, gen.LAYOUTS[int(rng.integers(5))])))
     except Exception as e:
         ctx.violation('cholesky:raises:' + type(e).__name__, {'n': n, 'D': D, 'P': P, 'error': repr(e)[:200]}); return
     if L.data.shape != a.shape:
@@ -227,8 +234,12 @@ def _eigh(ctx, p, rng):
             a[:, pp], lam_ref[:, pp] = _sym_repeated(rng, D, n, split)
         cls = 'repeated'
     mech = 'eigh:%s' % cls + ('' if split < 0 else ':split%d' % split)
+    use_out = rng.random() < 0.3
+    if use_out:
+        mech += ':reused-out'
     try:
-        l, Qm = algopy.eigh(UTPM(gen.relayout(a, gen.LAYOUTS[int(rng.integers(5))])))
+        l, Qm = UTPM.eigh(UTPM(gen.relayout(a, gen.LAYOUTS[int(rng.integers(5))])), out=(UTPM(rng.normal(size=(D, P, n))), UTPM(rng.normal(size=(D, P, n, n))))) if use_out else \
+            algopy.eigh(UTPM(gen.relayout(a, gen.LAYOUTS[int(rng.integers(5))])))
     except Exception as e:
         ctx.violation(mech + ':raises:' + type(e).__name__, {'n': n, 'D': D, 'P': P, 'split': split, 'error': repr(e)[:300]}); return
     if l.data.shape != (D, P, n) or Qm.data.shape != (D, P, n, n):
